@@ -70,6 +70,21 @@ EDGE = [
 ]
 
 
+UNI = ["\u00e9", "\u20ac", "\u65e5\u672c", "\U0001F600", "e\u0301", "\u2028", "\u00df\u20ac\U0001F600x", "\u00a0", "\ufeff"]
+UNI_TEMPLATES = [
+    'let x = "\u00a7@{item.a}" % {a = 1};', 'let x = "a @{item.a} \u00a7 @{item.a}" % {a = 1};', 'let x = "@{item.a + \\"\u00a7\\"}" % {a = "s"};',
+    'let x = "@{\u00a7}" % 1;', 'let x = "@{item}\u00a7" % 1;', 'let x = "\u00a7@{" % 1;', 'let x = "\u00a7@{item" % 1;', 'let x = "\u00a7 @ \u00a7" % (1);',
+    'let x = "\u00a7@" % ("\u00a7");', 'let x = "\u00a7 @ @" % (1);', 'let x = {"\u00a7" = 1}."\u00a7";', 'let x = select ("\u00a7") => {"\u00a7" = 1};',
+    'let x = select ("\u00a7") => {a = 1};', 'let x = "\u00a7" ~ "\u00a7";', 'let x = "a" ~ "[\u00a7";', 'let x = "a\u00a7b" in {"a\u00a7b" = 1};',
+    '// \u00a7 comment\nlet x = 1; // \u00a7', 'let x = fail "\u00a7 @{item}" % 1;', 'assert {ok = false, desc = "\u00a7"};',
+    'out json {"\u00a7" = "\u00a7"};', 'let x = "\u00a7\\n@{item}" % 1;', 'let x = int("\u00a7");', 'let x = "\u00a7" + "\u00a7"; let y = x.0;',
+    'let x = include str "\u00a7";', 'let x = import "\u00a7.ucg";', 'let x = convert json "\u00a7";', 'let x = TRACE "\u00a7";',
+    'let f = func (a) => "\u00a7@{a}" % 1; let y = f(1);', 'let m = module {a = "\u00a7"} => (r) { let r = "@{mod.a}\u00a7" % 1; }; let y = m{};',
+    'let x = map(func (c) => c + "\u00a7", "a\u00a7b");', 'let x = reduce(func (a, c) => a + c, "", "\u00a7\u00a7");', 'let x = "\u00a7".1;',
+    'let x = "\u00a7@{item.\u00a7}" % {a = 1};', 'let \u00a7 = 1;', 'let x = 1 \u00a7 2;', 'let x = "\u00a7', 'let x = {a\u00a7 = 1};',
+]
+
+
 def interesting(rs):
     """the stage outcomes that break the property"""
     bad = []
@@ -168,6 +183,11 @@ def run(tier, seed):
                 # length computed exactly above, so the textual "huge range" heuristic of excluded() is bypassed
                 inputs.append(("range_extremes", "let x = %s:%s%s;" % (lit(a), "" if st is None else lit(st) + ":", lit(bb))))
                 kinds["range_extremes"] = kinds.get("range_extremes", 0) + 1
+    # non-ASCII text at every place a string, comment or name is re-read by a second scanner (format templates, @{...}
+    # expressions, quoted field names, select keys, regular expressions, paths)
+    for u in UNI:
+        for t in UNI_TEMPLATES:
+            add("unicode_literals", t.replace("\u00a7", u))
     corpus_dir = os.path.join(C.VERIF, "corpus", PID)
     for f in sorted(glob.glob(os.path.join(corpus_dir, "*.ucg"))):
         add("corpus", open(f, encoding="utf-8", errors="replace").read())
